@@ -777,3 +777,17 @@ GROUPS["p11"] += [
       "        for url in urls {\n            let text = self.doc_state.lock().await.get(&url).map(|d| d.document.get_full_string());\n            let Some(text) = text else { continue };\n            self.update_document(&url, &text, None)\n                .await",
       None),
 ]
+
+# C12: a hand-written rule carries a flag from one sentence to the next (the shape of seeded/C12-d) / sets it afresh per sentence
+_SP = "harper-core/src/linting/spaces.rs"
+_SP_OLD = "        for sentence in document.iter_sentences() {\n            for space in sentence.iter_spaces() {\n                let TokenKind::Space(count) = space.kind else {\n                    panic!(\"The space iterator should only return spaces.\")\n                };\n\n                if count > 1 {"
+GROUPS["g23"] += [
+    E("c12-flag-carried-across-sentences", ["C12"], _SP, _SP_OLD,
+      "        let mut seen_wide = false;\n" + _SP_OLD.replace("if count > 1 {", "if count > 1 && !seen_wide {\n                    seen_wide = count > 2;"),
+      "R-C12-carry:<Spaces@Linter>::lint:iter_sentences"),
+]
+GROUPS["p11"] += [
+    E("p-c12-flag-reset-per-sentence", ["C12"], _SP, _SP_OLD,
+      "        let mut seen_wide;\n" + _SP_OLD.replace("            for space in sentence.iter_spaces() {", "            seen_wide = false;\n            for space in sentence.iter_spaces() {").replace("if count > 1 {", "if count > 1 && !seen_wide {\n                    seen_wide = count > 200;"),
+      None),
+]
